@@ -23,6 +23,7 @@ def main():
                 print("   " + l[:400])
     finally:
         subprocess.check_call(["git", "-C", "/repo", "checkout", "--", "."])
+        subprocess.run(["git", "-C", "/verif", "checkout", "--", "evidence"])      # evidence written on a mutated tree is not evidence
         subprocess.run(["git", "-C", "/repo", "clean", "-fdq"])
         st = subprocess.run(["git", "-C", "/repo", "status", "--porcelain"], stdout=subprocess.PIPE, text=True).stdout.strip()
         print("repo restored" + (" (NOT CLEAN: %s)" % st if st else ""))
